@@ -58,6 +58,11 @@ def check(ctx):
         for ent, p, e in cat.all_events("REGTOPCALL", "LOOP"):
             if e.func.startswith(eng0.factory.qual + "."):
                 continue
+            # (the allocator's in-use scan may be split into module-level helpers of the factory's module, called from the factory's
+            # own methods with the registries as arguments: still the factory's code, judged by C17)
+            facmod = eng0.factory.qual.rsplit(".", 1)[0] + "."
+            if e.func.startswith(facmod) and any(fr[2].startswith(eng0.factory.qual + ".") for fr in e.stack):
+                continue
             if e.kind == "REGTOPCALL":
                 wholes.append(e)
             elif isinstance(e.a.get("iter"), tuple) and mentions(e.a["iter"], ("regtop",)) is False:
